@@ -83,7 +83,7 @@ func stormSend(p *rawpeer.Peer, r *ev.Rand, tag uint16) string {
 
 func c06Storms(c *ev.Ctx) {
 	r := c.Rand("c06storm")
-	n := c.Sz(160, 5000)
+	n := c.Sz(160, 30000)
 	for i := 0; i < n; i++ {
 		if !c.Mine(i) {
 			continue
